@@ -37,7 +37,7 @@ func c06Run(t *testing.T, st *vstat.Stats, p tPlan) *viol {
 	synctest.Test(t, func(t *testing.T) {
 		root := tmpRoot("c06-")
 		defer os.RemoveAll(root)
-		obs = runSignTape(fx, p, root)
+		obs = runSignTape(fx, p, root, true)
 	})
 	if obs.Err != nil {
 		return violf("harness", "%v", obs.Err)
